@@ -271,6 +271,31 @@ func Run(o Options) (*Result, error) {
 						if _, isTN := obj.(*types.TypeName); isTN && obj.Pkg() != nil && obj.Pkg().Scope().Lookup(obj.Name()) == obj {
 							vis = true
 						}
+						// ... or an unexported method that takes part in dynamic dispatch: a method of an interface, or one named
+						// like an unexported method of a package-level interface of its package (a value converted to that interface
+						// in ANOTHER package links the two methods' sites)
+						if fn, isFn := obj.(*types.Func); isFn && !vis && fn.Pkg() != nil {
+							if sig, _ := fn.Type().(*types.Signature); sig != nil && sig.Recv() != nil {
+								if types.IsInterface(sig.Recv().Type()) {
+									vis = true
+								} else {
+									sc := fn.Pkg().Scope()
+									for _, nm := range sc.Names() {
+										tn, isTN := sc.Lookup(nm).(*types.TypeName)
+										if !isTN {
+											continue
+										}
+										if it, isI := tn.Type().Underlying().(*types.Interface); isI {
+											for k := 0; k < it.NumMethods(); k++ {
+												if m := it.Method(k); m.Name() == fn.Name() && m.Pkg() == fn.Pkg() {
+													vis = true
+												}
+											}
+										}
+									}
+								}
+							}
+						}
 						so = SiteObj{Found: true, Exported: vis, Name: obj.Name(), Kind: fmt.Sprintf("%T", obj)}
 					}
 				}
